@@ -215,16 +215,17 @@ UNITS += [
     # the innermost task of restore_contents: allocate the file on first touch, then write one blob at its offset
     Unit(name="restore_write_blob", file=RS, kind="block", within="fn restore_contents<S: Open>(",
          anchor="@closure:s1.spawn(move |_|",
-         block_sig="fn restore_write_blob(dest: &VDest, filenames: &Vec<DestPath>, sizes: &mut Vec<u64>, file_idx: usize, start: u64, data: BytesW, is_sparse: bool, size: u64, p: &ProgressW, fs: &mut DestFs, Ghost(planned): Ghost<Seq<u64>>)",
+         block_sig="fn restore_write_blob(dest: &VDest, filenames: &Vec<DestPath>, sizes: &mut Vec<u64>, file_idx: usize, start: u64, data: BytesW, is_sparse: bool, size: u64, bl: &BlobLocation, p: &ProgressW, fs: &mut DestFs, Ghost(planned): Ghost<Seq<u64>>)",
          block_tail="",
          functions=["commands::restore::restore_contents (per-destination task: allocate on first touch, write the blob at its offset; sparse skip)"],
          rewrites=[
              Rw("let mut sizes_guard = sizes.lock().unwrap();", "let sizes_guard = sizes;", why="Mutex guard -> the guarded vector itself (mutual exclusion ASSUMED)"),
              Rw("sizes_guard[file_idx] = 0;", "sizes_guard.set(file_idx, 0);", why="IndexMut on Vec -> Vec::set"),
              Rw("drop(sizes_guard);", "", why="guard release: no effect on the sequential model"),
+             Rw(r"(?P<v>\w+)\.length\.into\(\)", r"(\g<v>.length as u64)", regex=True, count=None, optional=True, why="u32 -> u64 conversion -> cast"),
              Rw(r"dest\.set_length\(path, ([^;]*?)\)\.unwrap\(\);", r"dest.vset_length(path, \1, fs);", regex=True, why="LocalDestination::set_length + unwrap -> ghost file-system stub (failure panics the worker)"),
              Rw(r"dest\.write_at\(path, ([^;]*?), &data\)\.unwrap\(\);", r"dest.vwrite_at(path, \1, &data, fs);", regex=True, why="LocalDestination::write_at + unwrap -> ghost file-system stub"),
-             Rw(r"dest\s*\.read_at\(path, start, size\)\s*\.is_ok_and\(\|old\| old\.iter\(\)\.all\(\|&b\| b == 0\)\)", "dest.vreads_as_zeros(path, start, size, fs)", regex=True, why="read_at + all-bytes-zero test (closure) -> stub: true only if the range reads as zeros"),
+             Rw(r"dest\s*\.read_at\(path, (?P<o>[^,]+), (?P<l>[^;]*?)\)\s*\.is_ok_and\(\|old\| old\.iter\(\)\.all\(\|&b\| b == 0\)\)", r"dest.vreads_as_zeros(path, \g<o>, \g<l>, fs)", regex=True, why="read_at + all-bytes-zero test (closure) -> stub: true only if the range reads as zeros"),
          ],
          hints=[("before", "p.inc(size);", """                                proof {
                                     // explicit instantiations (the proof must not depend on the solver's choice of triggers)
